@@ -313,6 +313,13 @@ reproc_t *reproc_destroy(reproc_t *process)
   ENS("C05/reproc_destroy.other_descriptors_untouched", FD_FRAME_EXCEPT(process != NULL ? PARENT_MASK0 : 0u))
   ;
 
+CONTRACT(reproc_new)
+reproc_t *reproc_new(void)
+  ASSIGNS(G_ERR)
+  ENS("C14/reproc_new.null_or_fresh_not_started_handle", RV == NULL || (__CPROVER_is_fresh(RV, sizeof(reproc_t)) && RV->status == ST_NOT_STARTED && INV(RV)))
+  ENS("C04+C14/reproc_new.null_only_when_allocation_failed", IMPLIES(RV == NULL, g.e.faults > OLD(g.e.faults)))
+  ;
+
 CONTRACT(reproc_close)
 int reproc_close(reproc_t *process, REPROC_STREAM stream)
   REQ("C14/reproc_close.handle_invariant", process == NULL || INV(process))
